@@ -149,12 +149,15 @@ def deadline(seconds: float):
         raise CaseTimeout("case exceeded %.1f s" % seconds)
 
     old = signal.signal(signal.SIGALRM, onalarm)
-    signal.setitimer(signal.ITIMER_REAL, seconds)
+    t0 = time.time()
+    outer_left, _ = signal.setitimer(signal.ITIMER_REAL, seconds)  # re-entrant: remember an enclosing watchdog
     try:
         yield
     finally:
         signal.setitimer(signal.ITIMER_REAL, 0)
         signal.signal(signal.SIGALRM, old)
+        if outer_left:
+            signal.setitimer(signal.ITIMER_REAL, max(0.01, outer_left - (time.time() - t0)))
 
 
 def innermost_pydsdl_frame(exc: BaseException) -> str:
@@ -190,7 +193,8 @@ def guarded(mod, case, R: "Acc") -> None:
     an exception raised by harness code is a harness error and aborts the run.
     """
     try:
-        mod.check_case(case, R)
+        with deadline(getattr(mod, "CASE_TIMEOUT", 600.0)):
+            mod.check_case(case, R)
     except CaseTimeout as ex:
         R.evaluations += 1
         R.violation("timeout", "terminates within the watchdog", case, observed=str(ex))
